@@ -59,7 +59,7 @@ HDR = ("From Coq Require Import ZArith List Bool.\nFrom PP Require Import C06.Mo
 # ------------------------------------------------------------------------------------------ _sum_by_group
 def gen_sbg_cases(ctx):
     rng = ctx.rng
-    n_cases = 240 if ctx.quick else 6000
+    n_cases = 200 if ctx.quick else 6000
     cases = []
     # fixed corpus, always first: both sides of the 1e5 switch, sparse large keys (numba falls back to numpy), keys that
     # differ by one, float / int32 keys, the empty and the single key, a "ones" column
